@@ -18,6 +18,7 @@
 #include "common.h"
 #include <archive.h>
 #include <archive_entry.h>
+#include <zlib.h>
 
 struct sink { unsigned char *b; size_t n, cap; };
 
@@ -250,6 +251,9 @@ static void f_op(char *line)
 		int ws = encode(fl, nf, w[2], p, pn, w[4], w[5], &sk, wcodes, sizeof wcodes, optst, sizeof optst);
 		printf("w=%s opts=%s wcodes=%s enc=%zu:%016llx", vh_st(ws), optst, wcodes, sk.n, (unsigned long long)vh_fnv(sk.b, sk.n));
 		if (only_text(fl, nf) && sk.n <= 400) { printf(" hex="); vh_puthex(sk.b, sk.n); }
+		if (nf == 1 && !strcmp(FT[fl[0]].w, "gzip") && sk.n >= 18 && strstr(w[5], "/1")) {
+			printf(" gz="); vh_puthex(sk.b, 10); putchar(':'); vh_puthex(sk.b + sk.n - 8, 8);
+		}
 		printf(" psig=%d", payload_claimed(p, pn));
 		decode(fl, nf, !strcmp(w[7], "all"), sk.b, sk.n, strtoul(w[6], NULL, 10), p, pn);
 		free(sk.b); free(p);
@@ -268,6 +272,26 @@ static void f_op(char *line)
 		printf("wa=%s wb=%s wcodes=%s encA=%zu encB=%zu psig=%d", vh_st(wa), vh_st(wb), wcodes, sa.n, sb.n, payload_claimed(both, an + bn));
 		decode(fl, nf, !strcmp(w[7], "all"), cat, sa.n + sb.n, strtoul(w[6], NULL, 10), both, an + bn);
 		free(sa.b); free(sb.b); free(cat); free(both); free(pa); free(pb);
+	} else if (n == 5 && !strcmp(w[0], "gz")) {
+		/* gz <header hex> <payload> <trailer hex (8 bytes, arbitrary)> <rblock>:
+		 * a hand-made gzip member (header with optional fields as given, raw deflate of the
+		 * payload by zlib, the given trailer) through the real gzip read filter */
+		size_t hn = 0, tn = 0, pn = 0;
+		unsigned char *h = vh_unhex(w[1], &hn), *p = mk_payload(w[2], &pn), *t = vh_unhex(w[3], &tn);
+		if (!p) { printf("bad-op\n"); return; }
+		z_stream z; memset(&z, 0, sizeof z);
+		deflateInit2(&z, 6, Z_DEFLATED, -15, 8, Z_DEFAULT_STRATEGY);
+		size_t cap = deflateBound(&z, pn) + 64;
+		unsigned char *m = malloc(hn + cap + tn + 1);
+		memcpy(m, h, hn);
+		z.next_in = p; z.avail_in = (uInt)pn; z.next_out = m + hn; z.avail_out = (uInt)cap;
+		deflate(&z, Z_FINISH);
+		size_t dn = cap - z.avail_out; deflateEnd(&z);
+		memcpy(m + hn + dn, t, tn);
+		int gz = ft_find("gzip");
+		printf("member=%zu", hn + dn + tn);
+		decode(&gz, 1, 0, m, hn + dn + tn, strtoul(w[4], NULL, 10), p, pn);
+		free(m); free(h); free(p); free(t);
 	} else printf("bad-op\n");
 }
 
